@@ -308,6 +308,17 @@ Definition tpi_event_keys (e : json) : option (list bytes) :=
       end
   end.
 
+(* the single public_key member of the m.room.third_party_invite content (the specification also
+   honours it; the library reads public_keys only) *)
+Definition tpi_event_single_key (e : json) : list bytes :=
+  match content_of e with
+  | CoObj o => match dec_string (field k_public_key o) with
+               | DVal pk => match pk with [] => [] | _ => [pk] end
+               | _ => []
+               end
+  | _ => []
+  end.
+
 (* JoinRuleContent; the allow list must have the right shape *)
 Fixpoint allow_ok (l : list json) : bool :=
   match l with
@@ -431,29 +442,40 @@ Definition kind_of (ty : bytes) : ekind :=
   else if bytes_eqb ty t_redaction then KRedaction
   else KOther.
 
-(* what checkCreateEventV1 / V3 read from the event under test *)
+(* what checkCreateEventV1 / V3 read from the event under test. A member of the wrong JSON type
+   makes the checker's Unmarshal fail, which rejects exactly like the member's own rule. *)
 Definition create_check_of (f : ver_flags) (e : json) : create_check :=
   let o := match content_of e with CoObj o => Some o | CoNull => Some [] | _ => None end in
   match o with
   | None => {| cc_content_ok := false; cc_has_creator := false; cc_room_version_known := true;
                cc_additional_ok := true; cc_room_id_present := false |}
   | Some o =>
-      let rv := dec_string (field k_room_version o) in
-      let cr := dec_string (field k_creator o) in
-      let ac := dec_string_list (field k_additional_creators o) in
-      let v3 := match vf_create_check f with CrV3 => true | _ => false end in
-      {| cc_content_ok :=
-           match rv with DBad => false | _ => true end &&
-           (if v3 then match ac with DBad => false | _ => true end
-            else match cr with DBad => false | _ => true end);
-         cc_has_creator := match cr with DVal _ => true | _ => false end;
-         cc_room_version_known := match rv with DVal v => known_room_version v | _ => true end;
+      {| cc_content_ok := true;
+         cc_has_creator := match dec_string (field k_creator o) with DVal _ => true | _ => false end;
+         cc_room_version_known :=
+           match dec_string (field k_room_version o) with
+           | DVal v => known_room_version v
+           | DAbsent => true
+           | DBad => false
+           end;
          cc_additional_ok :=
-           match ac with
+           match dec_string_list (field k_additional_creators o) with
            | DVal l => forallb (fun u => match user_id_parse u with Some _ => true | None => false end) l
-           | _ => true
+           | DAbsent => true
+           | DBad => false
            end;
          cc_room_id_present := match ev_str k_room_id e with [] => false | _ => true end |}
+  end.
+
+(* the power-levels part of allowerContext.update: (usable event present, effective content) *)
+Definition pl_of_auths (f : ver_flags) (creator : bytes) (auths : list json) : bool * pl_content :=
+  match find_auth t_power_levels [] auths with
+  | None => (false, pl_absent creator)
+  | Some p =>
+      match pl_of_event (vf_int_levels f) p with
+      | Some c => (true, c)
+      | None => (false, pl_zero)
+      end
   end.
 
 Section Abs.
@@ -464,20 +486,22 @@ Section Abs.
   Definition abs (f : ver_flags) (e : json) (auths : list json) : auth_input :=
     let create := create_of f auths in
     let creator := match create with Some c => c_sender c | None => [] end in
-    let ple := find_auth t_power_levels [] auths in
-    let plp := match ple with Some p => pl_of_event (vf_int_levels f) p | None => None end in
+    let pls := pl_of_auths f creator auths in
     let sender := ev_sender e in
     let target := match ev_state_key e with Some k => k | None => [] end in
     let nm := member_of_event e in
     let tpi := match nm with Some m => m_tpi m | None => None end in
     let via := match nm with Some m => m_via m | None => [] end in
-    let tpi_ev := match tpi with
-                  | Some t => match find_auth tpi_type (t_token t) auths with
-                              | None => None
-                              | Some te => Some (tpi_event_keys te)
-                              end
-                  | None => None
-                  end in
+    let tpi_raw := match tpi with
+                   | Some t => find_auth tpi_type (t_token t) auths
+                   | None => None
+                   end in
+    let tpi_ev := option_map tpi_event_keys tpi_raw in
+    let sig_under (keys : list bytes) :=
+      match tpi with
+      | Some t => existsb (fun pk => existsb (fun dk => sig_ok pk (fst dk) (snd dk)) (t_sigs t)) keys
+      | None => false
+      end in
     let is_pl := match kind_of (ev_type e) with KPowerLevels => true | _ => false end in
     let is_member := match kind_of (ev_type e) with KMember => true | _ => false end in
     let new_pl := if is_pl then pl_of_event (vf_int_levels f) e else None in
@@ -493,23 +517,20 @@ Section Abs.
        ai_state_key := ev_state_key e;
        ai_prev := ev_prev e;
        ai_create := create;
-       ai_pl_present := match plp with Some _ => true | None => false end;
-       ai_pl := match ple, plp with
-                | None, _ => pl_absent creator
-                | Some _, Some p => p
-                | Some _, None => pl_zero
-                end;
+       ai_pl_present := fst pls;
+       ai_pl := snd pls;
        ai_join_rule := join_rule_of auths;
        ai_sender_member := member_from_auth auths sender;
        ai_new_member := if is_member then nm else None;
        ai_target_member := member_from_auth auths target;
        ai_tpi_event := if is_member then tpi_ev else None;
-       ai_sig_ok :=
-         match tpi, tpi_ev with
-         | Some t, Some (Some keys) =>
-             existsb (fun pk => existsb (fun dk => sig_ok pk (fst dk) (snd dk)) (t_sigs t)) keys
+       ai_sig_ok := match tpi_ev with Some (Some keys) => sig_under keys | _ => false end;
+       ai_sig_ok_spec :=
+         match tpi_raw, tpi_ev with
+         | Some te, Some (Some keys) => sig_under (keys ++ tpi_event_single_key te)
          | _, _ => false
          end;
+       ai_tpi_sender_ok := match tpi_raw with Some te => bytes_eqb (ev_sender te) sender | None => false end;
        ai_via_split_ok := split_id_ok 64 via;
        ai_via_member := match find_auth t_member via auths with
                         | None => None
